@@ -62,3 +62,39 @@ Theorem null_deref_undefined names this st e o p st1 : eval names this st e o = 
 Proof. intros H. cbn [eval]. rewrite H. reflexivity. Qed.
 Theorem unassigned_read_undefined names this st e x : lookup e x = Some None -> eval names this st e (EIdent x) = Undef.
 Proof. intros H. cbn [eval]. rewrite H. reflexivity. Qed.
+
+(* ---- handlers ---- *)
+Definition write_prop_res (st : state) (this : nat) (a : Z) : res state := write_prop st this "i" (VI a).
+
+Theorem parameter_is_first_argument names this st x ty a rest :
+  run_handler names this st (CFunc {| f_named := false; f_return_ty := false; f_params := [(x, ty)]; f_body := FStmt (SExpr (EAssign (EMember EThis "i") (EIdent x))) |}) (VI a :: rest)
+  = write_prop_res st this a.
+Proof.
+  unfold run_handler, write_prop_res. cbn [f_params f_body map fst length firstn combine rev app exec eval lookup].
+  rewrite String.eqb_refl. cbn [rbind]. destruct (write_prop st this "i" (VI a)); reflexivity.
+Qed.
+
+Theorem return_stops names this st s : run_handler names this st (CStmt (SBlock [SReturn None; s])) [] = Def st.
+Proof. reflexivity. Qed.
+
+
+Lemma write_prop_trace' st o p v st' : write_prop st o p v = Def st' -> exists w, trace st' = ESet o p w :: trace st.
+Proof.
+  unfold write_prop. destruct (get_obj st o) as [x| |]; cbn [rbind]; try discriminate.
+  destruct (coerce p v) as [w| |]; cbn [rbind]; try discriminate.
+  match goal with |- context [rbind ?m _] => destruct m as [x'| |] end; cbn [rbind]; try discriminate.
+  intros H. inversion H. cbn. eauto.
+Qed.
+Theorem two_writes_in_order names this st o1 i1 o2 i2 n1 n2 st' :
+  object_named names o1 = Some i1 -> object_named names o2 = Some i2 ->
+  run_handler names this st (CStmt (SBlock [SExpr (EAssign (EMember (EIdent o1) "i") (EInt n1)); SExpr (EAssign (EMember (EIdent o2) "i") (EInt n2))])) [] = Def st' ->
+  exists w1 w2, trace st' = ESet i2 "i" w2 :: ESet i1 "i" w1 :: trace st.
+Proof.
+  intros H1 H2. unfold run_handler. cbn [exec eval lookup]. rewrite H1. cbn [rbind].
+  destruct (write_prop st i1 "i" (VL (Z.of_N n1))) as [s1| |] eqn:W1; cbn [rbind]; try discriminate.
+  cbn [eval lookup]. rewrite H2. cbn [rbind].
+  destruct (write_prop s1 i2 "i" (VL (Z.of_N n2))) as [s2| |] eqn:W2; cbn [rbind]; try discriminate.
+  intros H. inversion H; subst.
+  destruct (write_prop_trace' _ _ _ _ _ W1) as [w1 T1]. destruct (write_prop_trace' _ _ _ _ _ W2) as [w2 T2].
+  exists w1, w2. rewrite T2, T1. reflexivity.
+Qed.
